@@ -10,6 +10,8 @@ pub mod ext {
     pub struct ExRefMut<'a, T: ?Sized + 'a>(RefMut<'a, T>);
     #[verifier::external_type_specification] #[verifier::external_body]
     pub struct ExBorrowMutError(std::cell::BorrowMutError);
+    #[verifier::external_type_specification] #[verifier::external_body] #[verifier::reject_recursive_types(T)]
+    pub struct ExCell<T: ?Sized>(std::cell::Cell<T>);
     #[verifier::external_type_specification] #[verifier::external_body]
     pub struct ExIoError(std::io::Error);
     #[verifier::external_type_specification] #[verifier::external_body] #[verifier::reject_recursive_types(T)]
@@ -47,6 +49,12 @@ pub mod ext {
             Some(x) => (call_ensures(f, (&x,), true) && r == Some(x)) || (call_ensures(f, (&x,), false) && r is None),
         };
 
+    // Cell: contents are opaque (DESIGN 1.4)
+    pub assume_specification<T> [std::cell::Cell::<T>::replace] (c: &std::cell::Cell<T>, v: T) -> (r: T);
+    pub assume_specification<T> [std::cell::Cell::<T>::set] (c: &std::cell::Cell<T>, v: T);
+    #[verifier::external_type_specification] #[verifier::external_body] #[verifier::reject_recursive_types(T)]
+    pub struct ExRef<'b, T: ?Sized>(std::cell::Ref<'b, T>);
+    pub assume_specification<T: ?Sized> [RefCell::<T>::borrow] (c: &RefCell<T>) -> (r: std::cell::Ref<'_, T>);
     // RefCell: contents are opaque (DESIGN 1.3): a borrow yields an arbitrary value of T.
     pub assume_specification<T: ?Sized> [RefCell::<T>::borrow_mut] (c: &RefCell<T>) -> (r: RefMut<'_, T>);
     pub assume_specification<T: ?Sized> [RefCell::<T>::try_borrow_mut] (c: &RefCell<T>) -> (r: Result<RefMut<'_, T>, std::cell::BorrowMutError>);
